@@ -3043,6 +3043,54 @@ fn main() {
                                 Err(e) => format!("{{\"client\":\"{}\",\"end_ok\":false,\"returned_after_ms\":0,\"returned_after_the_peers_end\":false,\"connection_still_usable\":false}}", e),
                             }
                         }
+                        // slow_settlement <w>: session outgoing-window <w>. The client sends "first" unsettled (batchable: the outcome
+                        //   future is kept); the peer holds its disposition back, accepts the next <w> deliveries at once and only then
+                        //   accepts "first". The kept future must resolve: a delivery stays routable however many transfers follow it.
+                        "slow_settlement" => {
+                            use fe2o3_amqp_types::definitions::Role;
+                            use fe2o3_amqp_types::messaging::{Accepted, DeliveryState};
+                            use fe2o3_amqp_types::performatives::Disposition;
+                            let w = arg.first().copied().unwrap_or(4).max(1) as u32;
+                            let peer = tokio::spawn(sp::run(peer_io, sp::PeerCfg::default(), move |f: &Frame, _log: &[String]| {
+                                let mut act = sp::Act::default();
+                                if let FrameBody::Transfer { performative, .. } = &f.body {
+                                    if let Some(id) = performative.delivery_id {
+                                        let disp = |first: u32| Frame::new(f.channel, FrameBody::Disposition(Disposition { role: Role::Receiver, first, last: None, settled: true, state: Some(DeliveryState::Accepted(Accepted {})), batchable: false }));
+                                        if id > 0 {
+                                            act.replies.push(disp(id));
+                                        }
+                                        if id == w {
+                                            act.replies.push(disp(0));
+                                        }
+                                    }
+                                }
+                                act
+                            }));
+                            let client = tokio::time::timeout(Duration::from_secs(10), async {
+                                let mut conn = fe2o3_amqp::Connection::builder().container_id("client").open_with_stream(client_io).await.map_err(|_| "open_failed")?;
+                                let mut session = fe2o3_amqp::Session::builder().outgoing_window(w).begin(&mut conn).await.map_err(|_| "begin_failed")?;
+                                let mut sender = fe2o3_amqp::Sender::attach(&mut session, "s-1", "q1").await.map_err(|_| "attach_failed")?;
+                                let first = sender.send_batchable("first").await.map_err(|_| "first_send_failed")?;
+                                let mut others = 0u32;
+                                for k in 0..w {
+                                    if let Ok(Ok(_)) = tokio::time::timeout(Duration::from_millis(1500), sender.send(format!("m{}", k))).await {
+                                        others += 1;
+                                    }
+                                }
+                                let resolved = matches!(tokio::time::timeout(Duration::from_millis(1500), first).await, Ok(Ok(_)));
+                                let _ = tokio::time::timeout(Duration::from_secs(1), sender.close()).await;
+                                let _ = tokio::time::timeout(Duration::from_secs(1), session.end()).await;
+                                let _ = tokio::time::timeout(Duration::from_secs(1), conn.close()).await;
+                                Ok::<_, &'static str>((resolved, others))
+                            })
+                            .await
+                            .unwrap_or(Err("hang"));
+                            peer.abort();
+                            match client {
+                                Ok((resolved, others)) => format!("{{\"client\":\"ok\",\"first_send_resolved\":{},\"others_resolved\":{}}}", resolved, others),
+                                Err(e) => format!("{{\"client\":\"{}\",\"first_send_resolved\":false,\"others_resolved\":0}}", e),
+                            }
+                        }
                         // link_split <pieces>: the peer's attach carries max-message-size 16; the client sends ONE message
                         //   whose payload is cut into <pieces> transfers by the link. All frames of the delivery must carry
                         //   the first frame's delivery-id or none, `more` on all but the last, and add up to the payload.
